@@ -96,6 +96,13 @@ def p2_structs(reduced=False):
     p.tag("ro_tag", "DINT", instance_id=next(ids), access=2)
     p.tag("none_tag", "DINT", instance_id=next(ids), access=3)
     p.tag("big_int", "INT", (2100,), instance_id=next(ids))  # 4200 bytes: fragmented at both connection sizes
+    # string types of the SAME structure size (LEN + data padded to 4 bytes) and different capacities
+    s10 = p.add_type(string_type("STR10", 0x2A4, 10, handle=0x9A04))
+    s12 = p.add_type(string_type("STR12", 0x2A5, 12, handle=0x9A05))
+    s9 = p.add_type(string_type("STR9", 0x2A6, 9, handle=0x9A06))
+    p.tag("s12", s12, instance_id=next(ids))
+    p.tag("s10", s10, instance_id=next(ids))
+    p.tag("s9_ary", s9, (2,), instance_id=next(ids))
     if not reduced:
         p.tag("outer_ary", outer, (2,), instance_id=next(ids))
         p.tag("inner_2d", inner, (2, 2), instance_id=next(ids))
@@ -153,6 +160,12 @@ def p3_scopes():
     p.programs["Spare"] = []
     # program tags shadowing controller tags of the same name
     p.tag("zz_last", "DINT", scope="MainProgram", instance_id=next(pid))
+    # a program whose name has the full 40 characters a name may have ("Program:" comes on top of that in the scope segment)
+    long_name = "Line_7_Palletizer_Cell_B_Sequencer_v2_OK"
+    assert len(long_name) == 40
+    p.add(TagDef("Program:" + long_name, None, (), next(ids), kind="program", symbol_type=0x1068))
+    p.tag("lp_count", "DINT", scope=long_name, instance_id=1)
+    p.add(TagDef("Routine:Main", None, (), 2, scope=long_name, kind="routine", symbol_type=0x106D))
     return p
 
 
